@@ -76,13 +76,27 @@ def make_case(index, rng, tier):
             want = max(6, S + delta)
             big = rng.randrange(nfields)
             name = b"X-B:"
-            fields[big] = name + b" " + b"v" * (want - len(name) - 1)
+            pad = rng.choice(["v", "v", "trail-sp", "trail-tab", "lead-sp", "mixed"])
+            room = want - len(name) - 1
+            if pad == "v" or room < 3:
+                fields[big] = name + b" " + b"v" * room
+            elif pad == "trail-sp":
+                fields[big] = name + b" v" + b" " * (room - 1)        # optional whitespace is part of the field line the limit is about
+            elif pad == "trail-tab":
+                fields[big] = name + b" v" + b"\t" * (room - 1)
+            elif pad == "lead-sp":
+                fields[big] = name + b" " * room + b"v"
+            else:
+                fields[big] = name + b" " + b"v" * (room // 2) + b" \t" * ((room - room // 2) // 2) + b" " * ((room - room // 2) % 2)
         elif dim == "size" and S == 0 and nfields > 0 and "limit_request_field_size" in cfgd:
             # 0 is documented as 'unlimited header field sizes': a field far beyond the default size
             big = rng.randrange(nfields)
             fields[big] = b"X-B: " + b"v" * rng.choice([9000, 20000, 40000, 70000])
         return {"family": "limits", "cfg": cfgd, "line_len": line_len, "fields": [f.decode() for f in fields],
-                "seg": rng.choice(["max", "k", "bytes1", "small"]), "body": rng.choice(["", "x" * 3000, "x" * 20000])}
+                "seg": rng.choice(["max", "k", "bytes1", "small"]), "body": rng.choice(["", "x" * 3000, "x" * 20000]),
+                # the same body chunked: chunk data far larger than a small header cap, arriving in the same read as its size line, is
+                # body, not pending protocol data
+                "chunks": rng.choice([None, None, [1 << 20], [1000], [1, 4096, 7], [8192, 1]])}
     state = rng.choice(STATES)
     # keep the bound small (the parser rescans its whole buffer after every read: cost is quadratic in the cap);
     # default-sized limits only with full-size reads, and only in the thorough tier
@@ -123,9 +137,22 @@ def run(case, choices):
         fields = [f.encode() for f in case["fields"]]
         body = case["body"].encode()
         head = line + b"\r\n" + b"".join(f + b"\r\n" for f in fields)
+        chunks = case.get("chunks") if body else None
+        if chunks:
+            framing_field = b"Transfer-Encoding: chunked"
+            wire, p, i = b"", 0, 0
+            while p < len(body):
+                k = min(chunks[i % len(chunks)], len(body) - p)
+                wire += b"%x\r\n" % k + body[p:p + k] + b"\r\n"
+                p += k
+                i += 1
+            wire += b"0\r\n\r\n"
+        else:
+            framing_field = b"Content-Length: %d" % len(body)
+            wire = body
         if body:
-            head += b"Content-Length: %d\r\n" % len(body)
-        data = head + b"\r\n" + body
+            head += framing_field + b"\r\n"
+        data = head + b"\r\n" + wire
         if cfgd.get("proxy_protocol") and case.get("proxy_line", True):
             data = b"PROXY TCP4 1.2.3.4 5.6.7.8 11 22\r\n" + data
         nf = len(fields) + (1 if body else 0)
@@ -140,7 +167,7 @@ def run(case, choices):
         if nf > F:
             why.append("%d fields > %d" % (nf, F))
         if S > 0:
-            for f in fields + ([b"Content-Length: %d" % len(body)] if body else []):
+            for f in fields + ([framing_field] if body else []):
                 if len(f) > S:
                     why.append("field of %d bytes > %d" % (len(f), S))
                 elif len(f) > S - 2:
@@ -183,7 +210,7 @@ def run(case, choices):
                                 % ("served" if accepted else "rejected %r" % (term[:2],), case["seg"],
                                    "served" if obs2 else "rejected %r" % (term2[:2],), kind2, ctx))
                     break
-        res.shape = h64("limits", sorted(cfgd.items()), n, nf, [len(f) for f in fields], case["seg"])
+        res.shape = h64("limits", sorted(cfgd.items()), n, nf, [len(f) for f in fields], case["seg"], case.get("chunks"))
         res.states.add(h64("limits", must_reject, must_accept, term[0]))
         res.sample = {"family": "limits", "cfg": cfgd, "line_len": n, "fields": nf, "must_reject": must_reject,
                       "must_accept": must_accept, "terminal": list(map(str, term))}
